@@ -56,7 +56,8 @@ def cases(draw, tier):
                            st.tuples(st.integers(1, 5), st.just(1))))
     idk = draw(st.sampled_from(["tsv", "tsv", "simple"]))
     spec = draw(gen.table_specs(tier, values="wild", ids=idk, md=False,
-                                history=True, types=False, shape=shape))
+                                history=True, types=False, shape=shape,
+                                poke=True))
     md = draw(st.sampled_from(["none", "none", "taxonomy", "naive"]))
     n = len(spec["obs"])
     colname = None
